@@ -253,6 +253,53 @@ def run(run):
                 run.ok("C16.L4", "recursion passes the same candidate to each child", where(rec[0][1]), nontrivial=False)
             else:
                 run.bad("C16.L4", "recursion-arg", where(rec[0][1]), "recursive call passes %s" % expr_str(ra))
+        elif len(rec) == 0 and len(fit) == 1 and len(nxt) == 0:
+            # `self.enclosing.iter_mut().any(|child| child.enclose_deep_first(other))` followed by the test of the shape itself
+            anys = []
+            for bid, t in prog.calls(ed):
+                if re.search(r"Iterator>?::any$", Program.callee_name(t)) and len(t["args"]) == 2:
+                    src = strip(ex.operand(t["args"][0]))
+                    plain = True
+
+                    def unphi(x):
+                        # a value that is only mutated through &mut afterwards: its single initial definition
+                        while x[0] == "phi":
+                            base_ = [strip(a) for a in x[1] if strip(a)[0] != "mutated_by"]
+                            if len(base_) != 1:
+                                break
+                            x = base_[0]
+                        return x
+                    src = unphi(src)
+                    while src[0] == "call" and src[2]:
+                        if not re.search(r"::iter_mut$|::iter$|IntoIterator>?::into_iter$|Deref(Mut)?>::deref(_mut)?$|Iterator::rev$", src[1]):
+                            plain = False
+                        src = unphi(strip(src[2][0]))
+                    cl, caps = closure_of(strip(ex.operand(t["args"][1])))
+                    if plain and src[0] == "param" and src[1] == 1 and "enclosing" in src[2] and cl in prog.bodies:
+                        crec = [(b2, t2) for b2, t2 in prog.calls(cl) if Program.callee_name(t2) == ed]
+                        if len(crec) == 1:
+                            cex = Expr(prog, cl)
+                            child = strip(cex.operand(crec[0][1]["args"][0]))
+                            cand = strip(cex.operand(crec[0][1]["args"][1]))
+                            cand_ok = cand[0] == "param" and cand[1] == 1 and cand[2] and strip(caps.get(str(cand[2][0]), ("unknown",))) == ("param", 2, ())
+                            rets = [strip(r) for r in cex.returns()]
+                            whole = len(rets) == 1 and rets[0][0] == "call" and rets[0][1] == ed
+                            if child[0] == "param" and child[1] == 2 and cand_ok and whole:
+                                anys.append((bid, t))
+            if len(anys) == 1:
+                ab = anys[0][0]
+                c1 = cfg.dominates(ab, fit[0][0])
+                c2 = fit[0][0] not in cfg.reachable_from(0, removed=[ab])
+                c3 = ab not in cfg.reachable_from(fit[0][0])
+                if c1 and c2 and c3:
+                    run.ok("C16.L4", "children are tried before the shape itself (deepest first)", where(fit[0][1]),
+                           "`enclosing.iter_mut().any(|child| child.enclose_deep_first(other))` dominates can_fit")
+                    run.ok("C16.L4", "every enclosed child is offered the candidate (plain iteration over self.enclosing)", where(anys[0][1]))
+                    run.ok("C16.L4", "recursion passes the same candidate to each child", where(anys[0][1]), nontrivial=False)
+                else:
+                    run.bad("C16.L4", "deepest-first", where(fit[0][1]), "enclose_deep_first tests the shape itself before (or without) trying its children")
+            else:
+                run.bad("C16.L4", "deep-first-shape", where(b), "the children of the shape are not offered the candidate by a plain iteration over self.enclosing")
         else:
             run.bad("C16.L4", "deep-first-shape", where(b), "expected one recursive call, one can_fit and one child iterator (found %d/%d/%d)" % (len(rec), len(fit), len(nxt)))
         ext = [(bid, t) for bid, t in prog.calls(ed) if re.search(r"Extend<T>>::extend$", Program.callee_name(t))
